@@ -2243,6 +2243,20 @@ class AV:
     # -- calls ----------------------------------------------------------------------------------------
     def _call(self, n: ast.Call, fr: Frame):
         fn = n.func
+        # functools.partial(g, a.., k=..) with g a function of the package is `lambda <the remaining parameters of g>:
+        # g(a.., <them>, k=..)` (bound keywords are left out of the remaining parameters)
+        if (dotted(fn) or "").split(".")[-1] == "partial" and n.args and isinstance(n.args[0], ast.Name) and not any(isinstance(a_, ast.Starred) for a_ in n.args) and all(k_.arg for k_ in n.keywords):
+            g_ = self.sm.funcs.get((fr.rel, n.args[0].id))
+            if g_ is not None and not g_.node.args.vararg and not g_.node.args.kwarg and not g_.node.args.kwonlyargs:
+                bound_kw = {k_.arg for k_ in n.keywords}
+                rest = [a_.arg for a_ in g_.node.args.args[len(n.args) - 1 :] if a_.arg not in bound_kw]
+                lam = ast.Lambda(
+                    args=ast.arguments(posonlyargs=[], args=[ast.arg(r_) for r_ in rest], kwonlyargs=[], kw_defaults=[], defaults=[]),
+                    body=ast.Call(func=n.args[0], args=list(n.args[1:]), keywords=list(n.keywords) + [ast.keyword(arg=r_, value=ast.Name(r_, ast.Load())) for r_ in rest]),
+                )
+                ast.copy_location(lam, n)
+                ast.fix_missing_locations(lam)
+                return ("fn", _Closure(lam, fr.env, fr.rel, fr.func))
         d_ = dotted(fn)
         if d_ and (d_.startswith(("logger.", "logging.", "warnings.")) or d_ in ("print",)):
             return NONE
